@@ -16,20 +16,20 @@ import (
 type EvKind int
 
 const (
-	EvCall   EvKind = iota // a call (callee resolved through types.Info)
-	EvGuard                // a branch outcome
-	EvReturn               // return statement (Depth 0: of the analysed function)
-	EvAssign               // assignment / inc-dec / define
-	EvChanOp               // channel send or receive (blocking unless NonBlocking)
-	EvGo                   // go statement
-	EvDefer                // defer statement
-	EvEnter                // entering an inlined closure / function value passed to a synchronous combinator
-	EvExit                 // leaving it
-	EvSkip                 // the combinator did not invoke the closure on this path
-	EvFuncVal              // a function literal that escapes (stored, returned, passed to an unknown callee)
-	EvDelete               // builtin delete(m, k)
-	EvEnd                  // path ended without return (panic / no-return call)
-	EvCut                  // path cut at the back edge of a loop without header condition
+	EvCall    EvKind = iota // a call (callee resolved through types.Info)
+	EvGuard                 // a branch outcome
+	EvReturn                // return statement (Depth 0: of the analysed function)
+	EvAssign                // assignment / inc-dec / define
+	EvChanOp                // channel send or receive (blocking unless NonBlocking)
+	EvGo                    // go statement
+	EvDefer                 // defer statement
+	EvEnter                 // entering an inlined closure / function value passed to a synchronous combinator
+	EvExit                  // leaving it
+	EvSkip                  // the combinator did not invoke the closure on this path
+	EvFuncVal               // a function literal that escapes (stored, returned, passed to an unknown callee)
+	EvDelete                // builtin delete(m, k)
+	EvEnd                   // path ended without return (panic / no-return call)
+	EvCut                   // path cut at the back edge of a loop without header condition
 )
 
 type GuardKind int
@@ -99,7 +99,7 @@ type Engine struct {
 	combs  map[*types.Var]*combSummary // func-typed parameter -> how often the function calls it
 	busy   map[*Func]bool
 	MaxPth int
-	Trunc  []string // functions whose path enumeration was truncated
+	Trunc  []string       // functions whose path enumeration was truncated
 	inl    map[*Func]bool // helpers being inlined (recursion guard)
 	hcount map[*Func]int  // cached path counts of helper candidates
 }
